@@ -427,6 +427,37 @@ def unwrap_ok(line):
     return line[3:] if line.startswith("OK ") else None
 
 
+_STAMP = None
+
+
+def source_stamp():
+    """sha256 over the contents of every .rs/.ncl/.lalrpop/.toml file of /repo's core, parser and
+    vector crates and of the harness sources used by bin c01"""
+    global _STAMP
+    if _STAMP is not None:
+        return _STAMP
+    import hashlib
+    h = hashlib.sha256()
+    roots = [os.path.join(core.REPO, d) for d in ("core", "parser", "vector")]
+    files = []
+    for root in roots:
+        for dp, dn, fn in os.walk(root):
+            dn[:] = [d for d in dn if d not in ("target", ".git", "benches", "tests")]
+            for f in fn:
+                if f.endswith((".rs", ".ncl", ".lalrpop", ".toml")):
+                    files.append(os.path.join(dp, f))
+    files += [os.path.join(core.REPO, "Cargo.lock"), os.path.join(core.HARNESS, "src", "bin", "c01.rs"),
+              os.path.join(core.HARNESS, "src", "eval.rs"), os.path.join(core.HARNESS, "Cargo.toml")]
+    for f in sorted(files):
+        h.update(f.encode())
+        try:
+            h.update(open(f, "rb").read())
+        except OSError:
+            h.update(b"<missing>")
+    _STAMP = h.hexdigest()
+    return _STAMP
+
+
 def run_robust(exe, lines, timeout=1800, shards=None, cache=False):
     """Like core.run_sharded, but survives an aborting harness process (stack overflow inside the
     interpreter kills the process): the line being processed is answered `ERR Crash` and the shard
@@ -439,12 +470,13 @@ def run_robust(exe, lines, timeout=1800, shards=None, cache=False):
         return []
     key = None
     if cache:
-        # the answers are a pure function of (harness binary, input lines): the binary is rebuilt from
-        # /repo's working tree by cargo before every run and embeds the stdlib
+        # the answers are a pure function of (sources the harness binary is built from, input lines):
+        # the binary is rebuilt from /repo's working tree by cargo before every run and embeds the
+        # stdlib; the stamp hashes every source file of the crates it links
         import hashlib
         import json
         h = hashlib.sha256()
-        h.update(open(exe, "rb").read())
+        h.update(source_stamp().encode())
         h.update("\n".join(lines).encode())
         key = os.path.join(core.BUILD, "c01cache", h.hexdigest()[:24] + ".json")
         if os.path.exists(key):
